@@ -95,7 +95,9 @@ def marginOk (p : PivIn) (sel : PivSel) : Bool :=
   let clear (x y : Rat) : Bool := if x = 0 then decide (y > 0) else decide (qabs (x - y) > eps * (if x > y then x else y))
   let testOk (i : Nat) : Bool := clear (p.mags.getD i 0) thresh
   let oldOk := !p.usepr || ((List.range n).all fun i => if p.rows.getD i 0 == p.oldPivRow then testOk i else true)
-  let diagOk := sel.usepr || ((List.range n).all fun i => if p.rows.getD i 0 == p.diagInd then testOk i else true)
+  -- the diagonal test may sit on the threshold when the diagonal is the clear maximum: both outcomes then select the same row
+  let clearMax (i : Nat) : Bool := decide (p.mags.getD i 0 = M) && ((List.range n).all fun k => k == i || decide (p.mags.getD k 0 < M * (1 - eps)))
+  let diagOk := sel.usepr || ((List.range n).all fun i => if p.rows.getD i 0 == p.diagInd then (testOk i || clearMax i) else true)
   let maxRule := !sel.usepr && (p.rows.getD sel.pivptr 0 != p.diagInd)
   let maxOk := !maxRule || ((List.range n).all fun i => i == sel.pivptr || decide (p.mags.getD i 0 < M * (1 - eps)))
   oldOk && diagOk && maxOk
